@@ -144,7 +144,14 @@ func genRunCase(rt *rapid.T, h *harness.H, mutantPct int) *caseRun {
 		}
 		return describeRun(q, "mutant: "+kind+": "+what, g.Feat, v.Accept, seed)
 	}
-	return describeRun(p, "g-prog", g.Feat, true, seed)
+	c := describeRun(p, "g-prog", g.Feat, true, seed)
+	for _, f := range c.Feats {
+		h.S.Count("feat:" + f)
+	}
+	if c.RefProblem != "" {
+		h.S.Count("reference_semantics_problem:" + strings.SplitN(c.RefProblem, ":", 2)[0])
+	}
+	return c
 }
 
 func briefRun(o runOut) string {
